@@ -606,11 +606,13 @@ Section Wire.
 
   (* F04g: a non-empty body of a content type other than json/multipart/form is sent without Content-Type
      (several content types: bytes go through serialize -> base64 text, outside the model) *)
+  Definition known_kind (ct : str) : bool := match kind_of ct with KOther => false | _ => true end.
   Definition guard_F04g (o : op) (a : args) : bool :=
-    match a_body a with
-    | Some (ct, BBytes b) => negb (is_multi o) && match b with [] => true | _ => false end
-    | _ => true
-    end.
+    if is_multi o then forallb known_kind (o_body o)
+    else match a_body a with
+         | Some (ct, BBytes (_ :: _)) => false
+         | _ => true
+         end.
 
   Definition guards (o : op) (a : args) : list bool :=
     [guard_F04a o a; guard_F04b o a; guard_F04c o a; guard_F04d o a; guard_F04e o a; guard_F04f o a;
